@@ -293,6 +293,7 @@ func (a *Analysis) IdxGuard() *report.RuleResult {
 		mk(map[string]int{"len(lex.data)": 1, "lex.p": -1}, -1),
 	}
 	phpMode := []fact{mk(map[string]int{"lex.p": 1}, -2)}
+	growOK := a.stackInvariant(res)
 
 	constParam := map[string][2]int{}
 	{
@@ -690,7 +691,10 @@ func (a *Analysis) IdxGuard() *report.RuleResult {
 					if c, ok := x.X.(*ast.CallExpr); ok {
 						switch types.ExprString(c.Fun) {
 						case "lex.growCallStack":
-							// afterwards top < len(stack) (given top <= len(stack))
+							// afterwards top < len(stack) (given top <= len(stack)): proved from the body of growCallStack (stackInvariant)
+							if !growOK {
+								break
+							}
 							facts = append(facts, mk(map[string]int{"len(lex.stack)": 1, "lex.top": -1}, -1))
 						}
 					}
